@@ -18,6 +18,8 @@ def run(prop, tier):
         if tier == "quick":      # two readers queued behind one writer and a second writer arriving later need four threads (no spurious wake-ups here: 20 k executions)
             jobs.append(dict(src=SRC, rwlock=rw, args=["rw", "-p", 2, "-s", 0, "--", "R", "R", "W", "W"], script=("R", "R", "W", "W")))
         jobs.append(dict(src=SRC, rwlock=rw, args=["nest", "-p", 3, "-s", 1], script=()))
+        # "any number of readers": more read holds than a 15- or 16-bit counter can represent
+        jobs.append(dict(src=SRC, rwlock=rw, args=["many", "-p", 0, "-H", 4000000, "--", 70000], script=()))
     jobs.append(dict(src=SRC, rwlock="posix", args=["relock"], script=()))
     acc = mcsched.run_jobs(prop, tier, jobs)
     # existential clause: readers are shared - in (R,R,W) some schedule must have two readers inside at the same time
